@@ -23,8 +23,37 @@ def genCM : CM := { cmOfTbl genTbl [] with depthLimit := Gen.maxParseDepth }
 
 /-- the function bodies the models were written against (hash of each, messages and comments stripped) -/
 def pinnedSkeleton : List (String × String) := [
+  ("Executable.SetContextRecursive", "fecba30c47b5"),
+  ("Executable.String", "36b2f6bde286"),
+  ("Executable.Validate", "8980d68808db"),
+  ("Executable.validateFragmentCycles", "1eb7c3116412"),
+  ("Executable.write", "bdebd1326245"),
+  ("Field.String", "235038b68a19"),
+  ("Field.Validate", "58181d2e4a99"),
+  ("Field.getArg", "19ad5e763d53"),
+  ("Field.key", "4682fb716138"),
+  ("Field.sortArgs", "2f01671e3f49"),
+  ("Field.write", "4d719e643171"),
+  ("FragRef.Column", "76112db58cac"),
+  ("FragRef.Directives", "ac1a67195301"),
+  ("FragRef.Line", "8220243e1233"),
+  ("FragRef.SelectionSet", "3298e82781a6"),
+  ("FragRef.String", "b52e492c741b"),
+  ("FragRef.Validate", "a569e1d89379"),
+  ("FragRef.write", "58607979af01"),
+  ("Fragment.String", "0b361c0d5975"),
+  ("Fragment.Validate", "16471fa11431"),
+  ("Fragment.write", "fd3d0721c6d4"),
+  ("Inline.String", "19ac801e75e7"),
+  ("Inline.Validate", "2c875a8a1c3f"),
+  ("Inline.write", "4dab8dd4543f"),
+  ("Op.String", "57716655fe75"),
+  ("Op.Validate", "a27a5549f9e6"),
+  ("Op.write", "0044e235a56a"),
   ("ParseValue", "aee9fa3d28d3"),
   ("ParseValueString", "03432091c79e"),
+  ("VarDef.Validate", "8dd49799f901"),
+  ("VarDef.write", "5634fcdebcb5"),
   ("exeParser.readField", "a34d4efa5ee5"),
   ("exeParser.readFragRef", "9c97fce48d73"),
   ("exeParser.readFragment", "9888b86ba516"),
@@ -68,7 +97,8 @@ def pinnedSkeleton : List (String × String) := [
   ("sdlParser.readObject", "77fb47c2dc94"),
   ("sdlParser.readScalar", "bb58c591ae15"),
   ("sdlParser.readSchema", "546dc31c30c3"),
-  ("sdlParser.readUnion", "1b522b6e5905")
+  ("sdlParser.readUnion", "1b522b6e5905"),
+  ("writeVarDefs", "55cea593d151")
 ]
 
 theorem skeleton_pinned : Gen.parserSkeleton = pinnedSkeleton := by decide
